@@ -106,6 +106,10 @@ def probe_class():
         @weak_lru_cache(maxsize=4)
         def h(self, x=0, *, k=1):
             return {'d': self.data, 'x': x, 'k': k}
+
+        @weak_lru_cache(maxsize=8)
+        def p(self, a=None, b=None, c=7):
+            return ('p', self.data, a, b, c)
     return Probe
 
 
@@ -121,13 +125,36 @@ def probe_behaviour(b, rng, n_steps=80, max_live=12):
             d.create(Probe(('p', b, serial)))
         elif r < 0.7:
             o = live[int(rng.integers(0, len(live)))]
-            which = int(rng.integers(0, 3))
+            which = int(rng.integers(0, 4))
             if which == 0:
                 d.call(o, 'f', int(rng.integers(0, 6)))
             elif which == 1:
                 d.call(o, 'g')
+            elif which == 2:
+                form = int(rng.integers(0, 4))
+                if form == 0:
+                    d.call(o, 'h', int(rng.integers(0, 3)), k=int(rng.integers(0, 2)))
+                elif form == 1:
+                    d.call(o, 'h', k=int(rng.integers(0, 3)))          # later parameter by keyword, earlier one omitted
+                elif form == 2:
+                    d.call(o, 'h', x=int(rng.integers(0, 3)))
+                else:
+                    d.call(o, 'h')
             else:
-                d.call(o, 'h', int(rng.integers(0, 3)), k=int(rng.integers(0, 2)))
+                v = int(rng.integers(0, 3))
+                form = int(rng.integers(0, 6))
+                if form == 0:
+                    d.call(o, 'p', b=v)
+                elif form == 1:
+                    d.call(o, 'p', a=v)
+                elif form == 2:
+                    d.call(o, 'p', None, v)
+                elif form == 3:
+                    d.call(o, 'p', c=v)
+                elif form == 4:
+                    d.call(o, 'p', v, c=v + 1)
+                else:
+                    d.call(o, 'p', b=v, a=v + 1)
         elif r < 0.9:
             d.drop(live[int(rng.integers(0, len(live)))])
             if rng.random() < 0.7:
@@ -150,7 +177,7 @@ def real_behaviour(b, rng, n_objects=12, n_steps=60):
     def new_chain():
         nonlocal made
         made += 1
-        w = gen.SiteWorld(rng, fams[made % 6], 'pmg', N=32, n_sites=3, radius=1.0, inner_fraction=1.0)
+        w = gen.SiteWorld(rng, fams[made % len(fams)], 'pmg', N=32, n_sites=3, radius=1.0, inner_fraction=1.0)
         for _ in range(20):
             h = gen.random_history(rng, int(rng.integers(12, 20)), 2, 3, p_stay=0.5, inner=False)
             traj = w.trajectory(h)
@@ -196,8 +223,27 @@ def real_behaviour(b, rng, n_objects=12, n_steps=60):
                         d.call(o, 'jump_diffusivity', int(rng.integers(1, 4)))
                     elif c == 3:
                         d.call(o, 'collective', float(rng.choice([1.0, 3.3, 5.1])))
+                        if rng.random() < 0.5 and len(d.objs) < n_objects + 8:
+                            # the user keeps a Collective: an owner of memoised methods itself (weak back-reference to its Jumps)
+                            # built directly (a value returned by the memoised Jumps.collective is legitimately held by the cache)
+                            from gemdat.collective import Collective
+                            jj = d.objs[o]
+                            oc = d.create(Collective(jumps=jj, sites=jj.sites, lattice=jj.trajectory.get_lattice(),
+                                                     max_steps=int(rng.integers(1, 6)), max_dist=float(rng.choice([1.0, 3.3, 5.1]))),
+                                          parents=[o])
+                            kinds[oc] = 'C'
+                            del jj          # the driver itself must not keep the owner alive
                     elif c == 4:
-                        d.call(o, 'to_graph')
+                        thr = float(rng.choice([0.05, 0.1, 0.15, 0.2, 0.3]))
+                        form = int(rng.integers(0, 4))
+                        if form == 0:
+                            d.call(o, 'to_graph')
+                        elif form == 1:
+                            d.call(o, 'to_graph', max_e_act=thr)       # later optional parameter by keyword only
+                        elif form == 2:
+                            d.call(o, 'to_graph', min_e_act=thr)
+                        else:
+                            d.call(o, 'to_graph', None, thr)
                     else:
                         d.call(o, '_counter')
                 elif k == 'M':
@@ -211,7 +257,7 @@ def real_behaviour(b, rng, n_objects=12, n_steps=60):
                     else:
                         d.call(o, 'amplitudes')
                 elif k == 'C':
-                    d.call(o, str(rng.choice(['site_pair_count_matrix', 'multiple_collective'])))
+                    d.call(o, str(rng.choice(['site_pair_count_matrix', 'multiple_collective', 'site_pair_count_matrix_labels'])))
             except (ValueError, IndexError):
                 pass
         elif r < 0.92:
